@@ -330,9 +330,7 @@ func (m *Mutate) valuesToProto(ts *uint64) []*pb.MutationProto_ColumnValue {
 					dt = MutationProtoDeleteFamily
 				}
 				// add empty qualifier
-				if v == nil {
-					v = emptyQualifier
-				}
+				v = emptyQualifier
 			} else {
 				// delete specific qualifiers
 				if m.deleteOneVersion {
@@ -431,8 +429,8 @@ func (m *Mutate) valuesToCellblocks() ([]byte, int32, uint32) {
 	var cbsLen int
 	var count int
 	for family, v := range m.values {
-		if v == nil && m.mutationType == pb.MutationProto_DELETE {
-			// only a delete turns a nil qualifier map into a
+		if len(v) == 0 && m.mutationType == pb.MutationProto_DELETE {
+			// only a delete turns a nil or empty qualifier map into a
 			// whole-family cell; keep in sync with the loop below
 			v = emptyQualifier
 		}
@@ -461,9 +459,7 @@ func (m *Mutate) valuesToCellblocks() ([]byte, int32, uint32) {
 					mt = deleteFamilyType
 				}
 				// add empty qualifier
-				if v == nil {
-					v = emptyQualifier
-				}
+				v = emptyQualifier
 			} else {
 				// delete specific qualifiers
 				if m.deleteOneVersion {
